@@ -76,7 +76,28 @@ M = [
   "                parts[p]->H.resize(parts[p]->getSize(),parts[p]->getSize());\n",
   "",
   "non-owner does not allocate the block before receiving it: broadcast writes through a null/short buffer; needs >= 2 ranks"),
+ ("N02_sort_ascending", ["C16", "C06"], "include/mpi_dispatcher/mpi_skel.hpp",
+  "            return (this_->parts[l].complexity > this_->parts[r].complexity); } BOOST_LOCAL_FUNCTION_NAME_TPL(comp1) ",
+  "            return (this_->parts[l].complexity < this_->parts[r].complexity); } BOOST_LOCAL_FUNCTION_NAME_TPL(comp1) ",
+  "jobs handed out in ascending instead of descending complexity: another job-to-rank map, same results - *negative control*"),
+ ("N03_table_all_reduce", ["C06"], "src/pomerol/TwoParticleGF.cpp",
+  "        boost::mpi::reduce(comm, m_data.data(), m_data.size(), m_data2.data(), std::plus<ComplexType>(), 0);",
+  "        boost::mpi::all_reduce(comm, m_data.data(), m_data.size(), m_data2.data(), std::plus<ComplexType>());",
+  "frequency table all_reduced instead of reduced to the root: every rank gets the table, the root's is unchanged - *negative control* (the property only requires the root's table for the unsplit paths)"),
+ ("N04_extra_barriers", ["C06"], "src/pomerol/Hamiltonian.cpp",
+  "    computeGroundEnergy();\n    Status = Computed;",
+  "    comm.barrier();\n    computeGroundEnergy();\n    comm.barrier();\n    Status = Computed;",
+  "two more barriers at the end of Hamiltonian::compute - *negative control*"),
+ ("N05_split_explicit_key", ["C06", "C13"], "src/pomerol/TwoParticleGFContainer.cpp",
+  "    boost::mpi::communicator comm_split = comm.split(proc_colors[comm.rank()]);",
+  "    boost::mpi::communicator comm_split = comm.split(proc_colors[comm.rank()], comm.rank());",
+  "explicit key = old rank in the split (the default ordering) - *negative control*"),
+ ("N06_report_isend_wait", ["C16"], "src/mpi_dispatcher/mpi_dispatcher.cpp",
+  "    Comm.send(boss, int(pMPI::Pending));",
+  "    Comm.isend(boss, int(pMPI::Pending)).wait();",
+  "completion report sent with isend+wait instead of send - *negative control*"),
 ]
+
 
 def main():
     out = os.path.join(VERIF, "mutants")
